@@ -489,7 +489,7 @@ impl Language for Swift {
                 w,
                 r#"
 	private enum ContainerCodingKeys: String, CodingKey {{
-		case {tag_key}, {content_key}
+		case {tag_case}, {content_case}
 	}}
 
 	public init(from decoder: Decoder) throws {{
@@ -507,7 +507,10 @@ impl Language for Swift {
 		}}
 	}}"#,
                 tag_key = tag_key,
-                content_key = content_key,
+                // as declarations the keys need escaping when they are Swift keywords; after a `.`
+                // (`forKey: .default`) they do not
+                tag_case = swift_keyword_aware_rename(tag_key.as_str()),
+                content_case = swift_keyword_aware_rename(content_key.as_str()),
                 type_name = enum_name,
                 decoding_switch = coding_keys_info.decoding_cases.join(""),
                 encoding_switch = coding_keys_info.encoding_cases.join(""),
